@@ -280,7 +280,23 @@ def opRb (x : B) : Outcome String := do
               | .ok t => some (.tlv t.kind t.value) | .error _ => none))])
         else "na")
       else "na"
-    pure s!"hdr={hexOf h.header} raw={show_ raw} sec={show_ sec} items={it} addr={addr} braw={show_ braw} baddr={baddr}"
+    let okItems : List Tlv := items.filterMap (fun i => match i with | .ok t => some t | .error _ => none)
+    let extra : Tlv := ⟨TlvType.noOp.code, [0xAA, 0xBB]⟩
+    let aug : String ← (if h.addressFamily ≠ .unspec && allOk then
+        (match (Builder.withAddresses (vcByte h.version h.command) h.protocol h.addresses).run
+            ((okItems ++ [extra]).map (fun t => .writeTlv t.kind t.value)) with
+          | none => (pure "big" : Outcome String)
+          | some out => do
+            let r2 ← parseP out
+            match r2 with
+            | .error _ => pure s!"noparse:{hexOf out}"
+            | .ok h2 =>
+              let tb2 ← h2.tlvBytesP
+              if h2.command == h.command && h2.protocol == h.protocol && h2.addresses == h.addresses
+                  && h2.header == out && tlvCollect tb2 == (okItems ++ [extra]).map .ok
+              then pure "eq" else pure s!"diff:{hexOf out}")
+      else (pure "na" : Outcome String))
+    pure s!"hdr={hexOf h.header} raw={show_ raw} sec={show_ sec} items={it} addr={addr} braw={show_ braw} baddr={baddr} aug={aug}"
 
 -- ---------------------------------------------------------------- tables
 
